@@ -158,7 +158,7 @@ EXTS = [".py", ".c", ".html", ".txt", ".rs", ".js", ".md", ".jl", ".sh", ".ml", 
 def _fname(rng, used, spicy):
     for _ in range(100):
         d = rng.choice(DIRS if spicy else [x for x in DIRS if " " not in x and x.isascii()])
-        stem = rng.choice(["main", "util", "readme", "module", "x", "data_1", "Index", "file with space", "naïve", "a-b", "v1.2"]
+        stem = rng.choice(["main", "util", "readme", "module", "x", "data_1", "Index", "file with space", "naïve", "a-b", "v1.2", "back\\slash"]
                           if spicy else ["main", "util", "readme", "module", "x", "data_1", "Index", "a-b", "v1.2"])
         name = stem + str(rng.randint(0, 99)) + rng.choice(EXTS)
         p = f"{d}/{name}" if d else name
@@ -246,11 +246,22 @@ def gen_recipe(rng, n_files=None, defects=(), spicy=False, global_mode=None, git
                               "sources": [{"carrier": "header", "copyrights": [f"{rng.randint(1990, 2024)} Dup {rng.choice(HOLDERS)}"],
                                            "exprs": [gen_expr(rng, GOOD_IDS, [])], "toml_dir": ""}]})
 
+    if global_mode == "toml" and rng.random() < 0.3 and not any(f["path"].startswith("shared/") for f in files):
+        # one aggregate table whose glob serves several files, one of which adds information of its own: what one file
+        # contributes stays with that file
+        shared = {"carrier": "toml-aggregate", "copyrights": [f"{rng.randint(1990, 2024)} Shared Table"], "exprs": [gen_expr(rng, GOOD_IDS, [])],
+                  "toml_dir": "", "toml_path": "shared/**"}
+        for n, own in (("shared/a_first.c", True), ("shared/b_plain.c", False), ("shared/deep/c_plain.c", False), ("shared/z_last.py", rng.random() < 0.5)):
+            srcs = [dict(shared)]
+            if own:
+                srcs.append({"carrier": "header", "copyrights": [f"{rng.randint(1990, 2024)} {rng.choice(HOLDERS)}"],
+                             "exprs": [gen_expr(rng, GOOD_IDS, GOOD_EXC)], "toml_dir": ""})
+            files.append({"path": n, "kind": "text", "style": rng.choice(styles), "multi": False, "sources": srcs, "shared_table": True})
     recipe = {"files": files, "licenses": [], "global_mode": global_mode, "git": git, "defects": list(defects), "extra": []}
 
     # --- defects that act on files
     for d in defects:
-        victims = [f for f in files if not f.get("defect")]
+        victims = [f for f in files if not f.get("defect") and not f.get("shared_table")]
         if not victims:
             break
         v = rng.choice(victims)
@@ -402,6 +413,8 @@ def build(recipe, root, styles=None):
                 d = s.get("toml_dir", "")
                 rel = f["path"][len(d) + 1:] if d else f["path"]
                 esc = rel.replace("\\", "\\\\").replace("*", "\\*")
+                if s.get("toml_path"):
+                    esc = s["toml_path"]   # a glob shared by several files: one table serves them all
                 t = ["[[annotations]]", f"path = {_toml_str(esc)}", f'precedence = "{c[5:]}"']
                 if s["copyrights"]:
                     t.append("SPDX-FileCopyrightText = " + (_toml_str(s["copyrights"][0]) if len(s["copyrights"]) == 1
@@ -409,7 +422,8 @@ def build(recipe, root, styles=None):
                 if s["exprs"]:
                     ex = [expr_text(e) for e in s["exprs"]]
                     t.append("SPDX-License-Identifier = " + (_toml_str(ex[0]) if len(ex) == 1 else "[" + ", ".join(_toml_str(x) for x in ex) + "]"))
-                toml_tables.setdefault(d, []).append("\n".join(t))
+                if "\n".join(t) not in toml_tables.setdefault(d, []):
+                    toml_tables[d].append("\n".join(t))
             elif c == "dep5":
                 if s["copyrights"] and s["exprs"]:
                     # dep5 cannot hold several expressions; join with AND is not the same thing: the generator only
